@@ -593,12 +593,13 @@ def stage_eq_spec_full : Prop :=
   ∀ (op : String) (opts : Val) (docs : List Val),
     agreeB (Pipe.simpleStage ⟨[]⟩ op opts docs) (specStage op opts docs) = true
 
-/-- False of the code as it stands — no longer through a class of this property's own (`$count`
-    over no documents, `countempty`, is repaired) but through the query rules the `$match` oracle
-    is built from (C01's known finding `boolnum`: `{a: 1}` selects `{a: true}`, Python `==`). -/
+/-- False of the code as it stands — no longer through `$count` over no documents (`countempty`,
+    repaired), but through the known finding `limitdouble`: `$limit: 2.0` is refused where the
+    oracle keeps two documents (and, beyond this property's own classes, through the findings of
+    the query rules the `$match` oracle is built from, e.g. C01 `boolnum`). -/
 theorem stage_eq_spec_full_fails : ¬ stage_eq_spec_full := by
   intro h
-  have := h "$match" (.doc [("a", .int 1)]) [.doc [("a", .bool true)]]
+  have := h "$limit" (.dbl 2 0) [.doc [("_id", .int 0)]]
   revert this
   decide +kernel
 
